@@ -76,9 +76,13 @@ def rows_of(res):
     return [[int(l), [dec(v) for v in row]] for l, row in zip(df.index, df.values.tolist())]
 
 
+LAST_SRC = []
+
+
 def construct(table):
     cols = table["cols"]
     TYPES.clear()
+    LAST_SRC[:] = []
     for c in cols:
         TYPES[c] = c.startswith("name")
     data = [[enc(c, k) for c, k in zip(cols, row)] for row in table["rows"]]
@@ -100,8 +104,22 @@ def apply(dm, o):
             dm.modify_column(o["col"], enc(o["col"], o["v"]))
         elif op == "append":
             cols = list(dm._data.columns)
-            extra = DataModel([[enc(c, k) for c, k in zip(cols, row)] for row in o["rows"]], columns=cols)
+            rows = [[enc(c, k) for c, k in zip(cols, row)] for row in o["rows"]]
+            if o.get("from_slice"):
+                # the appended table is a slice of a larger one: its row labels do not start at 0
+                extra = DataModel([rows[0]] + rows, columns=cols).slice(1, len(rows) + 1)
+            else:
+                extra = DataModel(rows, columns=cols)
             dm.append_data_model(extra)
+            LAST_SRC[:] = [extra]
+        elif op == "touch_source":
+            # the table appended last is modified in place; this table must not change (contract: a no-op here)
+            if LAST_SRC and len(LAST_SRC[0]._data) > 0:
+                src = LAST_SRC[0]
+                lab = src._data.index[0]
+                for c in list(src._data.columns):
+                    import pandas as pd
+                    src.modify_element(lab, c, 2.0 if pd.api.types.is_numeric_dtype(src._data[c].dtype) else "zz")
         elif op == "remove_rows":
             dm.remove_rows(o["col"], enc(o["col"], o["v"]))
         elif op == "rename_column":
@@ -153,7 +171,7 @@ def apply(dm, o):
     return dm, ev
 
 
-ALL_OPS = {"rename_map", "modify_element", "modify_row", "modify_column", "append", "remove_rows", "rename_column", "slice",
+ALL_OPS = {"rename_map", "modify_element", "modify_row", "modify_column", "append", "touch_source", "remove_rows", "rename_column", "slice",
            "reset_index", "fillna", "access", "column", "index", "bundle", "index_first", "index_dm", "iter", "len",
            "read_block", "read_block_with", "boundary"}
 
@@ -171,6 +189,11 @@ def mutations(fr):
         out.append({"op": "modify_column", "col": cols[0], "v": 1})
     if n + 1 <= MAX_ROWS:
         out.append({"op": "append", "rows": [[1, 0]]})
+    if n == 0:
+        # appending to an empty table: a table whose labels do not start at 0, and two rows at once
+        out.append({"op": "append", "rows": [[1, 0]], "from_slice": True})
+        out.append({"op": "append", "rows": [[1, 0], [2, 1]], "from_slice": True})
+    out.append({"op": "touch_source"})
     for c in cols:
         for v in (1, 2):
             out.append({"op": "remove_rows", "col": c, "v": v})
@@ -268,6 +291,8 @@ TABLES = [
     {"cols": ["stmt_id", "name"], "rows": [[1, 0], [2, 1], [1, 2]]},
     {"cols": ["stmt_id", "name"], "rows": [[2, 2], [2, 1], [0, 1], [1, 1]]},
     {"cols": ["name", "stmt_id"], "rows": [[1, 1], [1, 1]]},
+    {"cols": ["stmt_id", "name"], "rows": []},
+    {"cols": ["stmt_id", "name"], "rows": [[1, 1]]},
 ]
 
 
@@ -292,7 +317,7 @@ def chains(out_dir, count, length, rng):
 def main():
     out_dir, tier, seed = sys.argv[1], sys.argv[2], int(sys.argv[3])
     rng = random.Random(seed)
-    plan = {"quick": [(0, 3)], "thorough": [(0, 4), (1, 3), (2, 3)]}[tier]
+    plan = {"quick": [(0, 3), (3, 3), (4, 3)], "thorough": [(0, 4), (1, 3), (2, 3), (3, 4), (4, 4)]}[tier]
     jobs = []
     fam = []
     for tid, depth in plan:
